@@ -88,7 +88,9 @@ func (root *Root) ResolveExecutable(
 	if 0 < len(op.Variables) {
 		opVars = map[string]interface{}{}
 		for _, vd := range op.Variables {
-			opVars[vd.Name] = vd.Default
+			// The default belongs to the parsed request. Coercion fills in
+			// input object defaults in place so work on a copy.
+			opVars[vd.Name] = cloneValue(vd.Default)
 			if vars != nil {
 				if v := vars[vd.Name]; v != nil {
 					if ic, _ := vd.Type.(InCoercer); ic != nil { // validated in SDL validation
